@@ -11,5 +11,5 @@ SAVE=$(mktemp /var/tmp/verif-evidence-XXXXXX)
 [ -f "$EV" ] && cp "$EV" "$SAVE"
 git apply "$PATCH"
 trap 'git -C /repo checkout -- . ; [ -s "$SAVE" ] && cp "$SAVE" "$EV"; rm -f "$SAVE"' EXIT
-cd /verif && timeout 3000 bin/verif check $ID --tier $TIER 2>&1 | grep -E "^(VIOLATION|OK|BROKEN|INCONCLUSIVE|ENCODER|harness)" | cut -c1-400
+cd /verif && VERIF_EVIDENCE_DIR=${VERIF_EVIDENCE_DIR:-/var/tmp/vp_seed_evidence} timeout 3000 bin/verif check $ID --tier $TIER 2>&1 | grep -E "^(VIOLATION|OK|BROKEN|INCONCLUSIVE|ENCODER|harness)" | cut -c1-400
 echo "SEEDCHECK exit=${PIPESTATUS[0]}"
